@@ -56,6 +56,7 @@ pub fn cast_shapes_heightfield_shape<D: ?Sized + QueryDispatcher>(
 
     let cell_width = heightfield1.cell_width();
     let start_x = heightfield1.start_x();
+    let hext2_1_x = aabb2_1.half_extents().x;
 
     // NOTE: the loop below advances `curr_elt` before testing a segment, so when the
     //       shape starts outside of the heightfield we must start one cell before
@@ -82,7 +83,10 @@ pub fn cast_shapes_heightfield_shape<D: ?Sized + QueryDispatcher>(
             curr_elt -= 1;
         }
 
-        if curr_param >= options.max_time_of_impact {
+        // NOTE: `curr_param` is the time at which the center of the shape's Aabb reaches the
+        //       segment. The shape itself reaches it earlier, by the time it takes to travel
+        //       the half-width of its Aabb.
+        if curr_param - hext2_1_x / ray.dir.x.abs() >= options.max_time_of_impact {
             break;
         }
 
@@ -131,17 +135,21 @@ pub fn cast_shapes_heightfield_shape<D: ?Sized + QueryDispatcher>(
 
     /*
      * Enlarge the ranges by 1 to account for any movement within one cell.
+     *
+     * NOTE: the ranges are shifted whenever the center of the Aabb enters a new cell. At that
+     *       time the trailing side of the Aabb may still overlap the cell it started in, so the
+     *       ranges must be enlarged by 1 on the trailing side too. Otherwise that cell is dropped
+     *       from the range too early and the lines entered later along the other axis are not
+     *       tested there.
      */
-    if ray.dir.z > 0.0 {
-        curr_range_i.end += 1;
-    } else if ray.dir.z < 0.0 {
+    if ray.dir.z != 0.0 {
         curr_range_i.start -= 1;
+        curr_range_i.end += 1;
     }
 
-    if ray.dir.x > 0.0 {
-        curr_range_j.end += 1;
-    } else if ray.dir.x < 0.0 {
+    if ray.dir.x != 0.0 {
         curr_range_j.start -= 1;
+        curr_range_j.end += 1;
     }
 
     /*
